@@ -143,6 +143,11 @@ class RelaxationTensor(SuperOperator, Secular, Saveable):
             S1 = inv
         dim = SS.shape[0]
         
+        # the representation in a complex basis is complex: real storage
+        # would silently drop its imaginary part
+        if numpy.iscomplexobj(SS) and not numpy.iscomplexobj(self._data):
+            self._data = self._data.astype(numpy.complex128)
+
         if self._data.ndim == 4:
             for c in range(dim):
                 for d in range(dim):
